@@ -583,13 +583,11 @@ class Normalizer:
                                 ok = True
                     if ok:
                         new = copy.deepcopy(body)
+                        # the arguments bound first are the caller's expressions: they take no part in the renaming of the
+                        # helper's locals nor in the substitution of its parameters (they are put in front afterwards)
+                        pre_specs = [(p_, copy.deepcopy(mapping[p_])) for p_ in rebinds]
                         if rebinds:
-                            pre = []
-                            for p_ in rebinds:
-                                pre.append(ast.Assign(targets=[ast.Name(id=p_, ctx=ast.Store())], value=copy.deepcopy(mapping[p_])))
-                                ast.copy_location(pre[-1], s)
                             mapping = {k_: v_ for k_, v_ in mapping.items() if k_ not in rebinds}
-                            new = pre + new
                         ret = None
                         n_rets = sum(1 for b in new for x in ast.walk(b) if isinstance(x, ast.Return))
                         if n_rets > 1 or (n_rets == 1 and not isinstance(new[-1], ast.Return)):
@@ -603,7 +601,7 @@ class Normalizer:
                         elif new and isinstance(new[-1], ast.Return):
                             ret = new.pop().value
                         # rename helper locals that clash with the caller's
-                        locs = {x.id for b in new for x in ast.walk(b) if isinstance(x, ast.Name) and isinstance(x.ctx, ast.Store)}
+                        locs = {x.id for b in new for x in ast.walk(b) if isinstance(x, ast.Name) and isinstance(x.ctx, ast.Store)} | {p_ for p_, _v in pre_specs}
                         ren = {}
                         for l in locs:
                             if l in taken:
@@ -623,6 +621,7 @@ class Normalizer:
                         new = [_Subst(mapping).visit(b) for b in new]
                         if ret is not None:
                             ret = _Subst(mapping).visit(ret)
+                        pre_stmts = [ast.copy_location(ast.Assign(targets=[ast.Name(id=ren.get(p_, p_), ctx=ast.Store())], value=v_), s) for p_, v_ in pre_specs]
                         for b in new:
                             for x in ast.walk(b):
                                 ast.copy_location(x, s) if not hasattr(x, "lineno") else None
@@ -639,13 +638,23 @@ class Normalizer:
                             if len(t_elts) == len(r_elts) and all(isinstance(x, ast.Name) for x in t_elts + r_elts):
                                 tn, rn = [x.id for x in t_elts], [x.id for x in r_elts]
                                 used_in_new = {x.id for b in new for x in ast.walk(b) if isinstance(x, ast.Name)}
+                                m2 = dict(zip(rn, tn))
+                                # the arguments bound first read the caller's variables: one that reads a caller's name after an
+                                # earlier binding has taken that name over would read the wrong value
+                                pre_ok, overwritten = True, set()
+                                for a_ in pre_stmts:
+                                    if {x.id for x in ast.walk(a_.value) if isinstance(x, ast.Name)} & overwritten:
+                                        pre_ok = False
+                                    overwritten.add(m2.get(a_.targets[0].id, a_.targets[0].id))
                                 if len(set(tn)) == len(tn) and len(set(rn)) == len(rn) and set(rn) <= helper_locals and not (set(tn) & arg_names) \
-                                        and not ((set(tn) - set(rn)) & used_in_new):
-                                    m2 = dict(zip(rn, tn))
+                                        and not ((set(tn) - set(rn)) & used_in_new) and pre_ok:
                                     for b in new:
                                         for x in ast.walk(b):
                                             if isinstance(x, ast.Name) and x.id in m2:
                                                 x.id = m2[x.id]
+                                    for a_ in pre_stmts:
+                                        if a_.targets[0].id in m2:
+                                            a_.targets[0].id = m2[a_.targets[0].id]
                                     coalesced = True
                         if coalesced:
                             pass
@@ -662,6 +671,11 @@ class Normalizer:
                                     ast.copy_location(x, s)
                             new.append(tail)
                         self.report["helpers"].append(f"{h.name} (statements) at line {getattr(s, 'lineno', 0)}")
+                        for a_ in pre_stmts:
+                            for x in ast.walk(a_):
+                                if not hasattr(x, "lineno"):
+                                    ast.copy_location(x, s)
+                        new = pre_stmts + new
                         if depth < 3:
                             new = self._inline_stmt_calls(new, cls_name, taken, depth + 1)
                         out.extend(new)
@@ -1125,11 +1139,11 @@ class Normalizer:
             return out + b
 
         def simple(e):
+            # a plain local, a literal, or a field read off a plain local (read where the loop variable stood; the loop
+            # body is checked below not to store a field of that name)
             if isinstance(e, (ast.Name, ast.Constant)):
                 return True
-            if isinstance(e, ast.Attribute):
-                return simple(e.value)
-            return False
+            return isinstance(e, ast.Attribute) and simple(e.value)
 
         def rewrite_block(block):
             nonlocal changed_any
@@ -1185,7 +1199,10 @@ class Normalizer:
                         outside_use = any(isinstance(n, ast.Name) and n.id in tn and id(n) not in inside and isinstance(n.ctx, ast.Load) and not rebound_above(n) for n in ast.walk(func))
                         # the generator's variable becomes a local of the function: it must not collide with another one
                         other_locals = {n.id for n in ast.walk(func) if isinstance(n, ast.Name) and id(n) not in inside} | {a.arg for a in func.args.args}
-                        if not (body_stores & (set(tn) | e_names | gen_vars)) and not outside_use and not (gen_vars & (other_locals - set(tn))) and len(set(tn)) == len(tn):
+                        e_attrs = {n.attr for e in e_parts for n in ast.walk(e) if isinstance(n, ast.Attribute)}
+                        attr_stores = {n.attr for b in st.body for n in ast.walk(b) if isinstance(n, ast.Attribute) and isinstance(n.ctx, (ast.Store, ast.Del))}
+                        if not (body_stores & (set(tn) | e_names | gen_vars)) and not outside_use and not (gen_vars & (other_locals - set(tn))) and len(set(tn)) == len(tn) \
+                                and not (e_attrs & attr_stores):
                             mapping = {t: e for t, e in zip(tn, e_parts) if not (isinstance(e, ast.Name) and e.id == t)}
                             sub = _Subst(mapping)
                             new_body = [sub.visit(copy.deepcopy(b)) for b in st.body]
@@ -1347,12 +1364,21 @@ def _flatten_starred_displays(func):
         if isinstance(n, ast.Name):
             (stores if isinstance(n.ctx, (ast.Store, ast.Del)) else loads).setdefault(n.id, []).append(n)
     displays = {}
+    # position in the text (depth-first, in field order): line numbers are not reliable after inlining
+    order = {}
+
+    def number(n):
+        order[id(n)] = len(order)
+        for ch in ast.iter_child_nodes(n):
+            number(ch)
+    number(func)
     for st in ast.walk(func):
         if isinstance(st, ast.Assign) and len(st.targets) == 1 and isinstance(st.targets[0], ast.Name) and isinstance(st.value, ast.Tuple) \
                 and len(stores.get(st.targets[0].id, [])) == 1 and len(loads.get(st.targets[0].id, [])) == 1 \
                 and all(isinstance(e, (ast.Name, ast.Constant)) for e in st.value.elts):
             elt_names = {e.id for e in st.value.elts if isinstance(e, ast.Name)}
-            if all(len(stores.get(x, [])) <= 1 for x in elt_names):
+            # the elements are bound once, before the display is built: the call sees the values the display holds
+            if all(len(stores.get(x, [])) <= 1 and all(order.get(id(y), 0) < order.get(id(st), 0) for y in stores.get(x, [])) for x in elt_names):
                 displays[st.targets[0].id] = st
     used = set()
     for c in ast.walk(func):
